@@ -189,6 +189,10 @@ func init() { reg("H_C17_roundtrip", H_C17_roundtrip) }
 
 // transferVia sends A uusdc through the dispatcher of w over the given route (0 CCTP domain 7, 1 Hyperlane domain 9, 2 internal).
 func transferVia(w *World, route int, A math.Int, withFee bool) error {
+	return transferViaIn(w, route, A, withFee, nativeDenom)
+}
+
+func transferViaIn(w *World, route int, A math.Int, withFee bool, denom string) error {
 	var f *core.Forwarding
 	var err error
 	switch route {
@@ -206,11 +210,11 @@ func transferVia(w *World, route int, A math.Int, withFee bool) error {
 	}
 	pl, err := core.NewPayload(f, acts...)
 	must(err)
-	ta, err := core.NewTransferAttributes(core.PROTOCOL_IBC, "channel-0", nativeDenom, A)
+	ta, err := core.NewTransferAttributes(core.PROTOCOL_IBC, "channel-0", denom, A)
 	if err != nil {
 		return err
 	}
-	w.L.Set(core.ModuleAddress, nativeDenom, A)
+	w.L.Set(core.ModuleAddress, denom, A)
 	return w.K.Dispatcher().DispatchPayload(w.Ctx, ta, pl)
 }
 
